@@ -35,7 +35,13 @@ def cells(tier, seed, salt=''):
                 if rnd.random() < 0.5:
                     h, w = min(h, 14), min(w, 14) if min(w, 14) != min(h, 14) else 13 if min(h, 14) != 13 else 12
                 out.append({'biort': b, 'qshift': q, 'J': rnd.choice([1, 2, 2, 3, 3, 4, 5]), 'shape': [h, w],
-                            'N': rnd.choice([1, 2]), 'C': rnd.choice([1, 2, 3])})
+                            'N': rnd.choice([1, 2, 6]), 'C': rnd.choice([1, 2, 3, 4, 6])})
+    # many channels / wide batches (sizes at which grouped convolutions are commonly replaced)
+    for _ in range(6 if tier == 'quick' else 120):
+        big = rnd.choice([32, 33, 64])
+        N, C = (1, big) if rnd.random() < 0.7 else (big, 1)
+        out.append({'biort': rnd.choice(refs.BIORTS), 'qshift': rnd.choice(refs.QSHIFTS), 'J': rnd.choice([2, 3]),
+                    'shape': [rnd.choice([8, 10, 13]), rnd.choice([9, 12, 16])], 'N': N, 'C': C})
     rnd.shuffle(out)
     return out
 
